@@ -279,11 +279,23 @@ func Decrypt(src io.Reader, armored bool, bufSize int, ids ...age.Identity) *Res
 	if bufSize <= 0 {
 		bufSize = 32 * 1024
 	}
-	buf := make([]byte, bufSize)
+	// The buffer handed to Read is a WINDOW into a larger array of the
+	// caller's (len < cap, the capacity reaches more than a chunk further).
+	// io.Reader allows Read to use p[:len(p)] during the call and nothing
+	// else: the array outside the window must come back untouched, and after
+	// the call the whole array is the caller's again, who overwrites it.
+	w := newWindow(bufSize)
+	defer w.release()
+	buf := w.buf
 	zero := 0
 	for {
 		n, err := r.Read(buf)
+		if n < 0 || n > len(buf) {
+			res.ReadErr = fmt.Errorf("verif: Read returned n=%d for a buffer of %d bytes", n, len(buf))
+			return res
+		}
 		res.Plain = append(res.Plain, buf[:n]...)
+		w.afterRead(n)
 		if err != nil {
 			res.ReadErr = err
 			break
@@ -295,6 +307,11 @@ func Decrypt(src io.Reader, armored bool, bufSize int, ids ...age.Identity) *Res
 				return res
 			}
 		}
+	}
+	if w.finalCheck() != nil && res.ReadErr == io.EOF {
+		// a clean end is not clean when memory outside the window was written
+		// (on a damaged file the monitors judge the bytes released instead)
+		res.ReadErr = ErrOutsideWindow
 	}
 	res.StickyOK = true
 	for i := 0; i < 2; i++ {
@@ -310,6 +327,92 @@ func Decrypt(src io.Reader, armored bool, bufSize int, ids ...age.Identity) *Res
 		}
 	}
 	return res
+}
+
+// ErrOutsideWindow reports that Read wrote to the caller's array outside
+// p[:len(p)].
+var ErrOutsideWindow = errors.New("verif: Read wrote to the caller's memory outside p[:len(p)]")
+
+const (
+	windowLead = 64
+	windowTail = 66000 // more than one chunk plus tag
+	canary     = 0x5C
+)
+
+type window struct {
+	arena []byte
+	buf   []byte
+	calls int
+	pool  bool
+	foul  bool
+}
+
+var windowPool = sync.Pool{New: func() any { return make([]byte, windowLead+64*1024+windowTail) }}
+
+func newWindow(size int) *window {
+	w := &window{}
+	need := windowLead + size + windowTail
+	if size <= 64*1024 {
+		w.arena, w.pool = windowPool.Get().([]byte)[:need], true
+	} else {
+		w.arena = make([]byte, need)
+	}
+	for i := range w.arena {
+		w.arena[i] = canary
+	}
+	w.buf = w.arena[windowLead : windowLead+size] // len < cap: the capacity reaches the end of the arena
+	return w
+}
+
+func (w *window) release() {
+	if w.pool {
+		windowPool.Put(w.arena[:cap(w.arena)])
+	}
+}
+
+// afterRead is called when Read has returned and its bytes were copied out:
+// the bytes next to the window are checked and the caller's memory reused.
+func (w *window) afterRead(n int) {
+	w.calls++
+	end := windowLead + len(w.buf)
+	near := end + 256
+	if !w.foul {
+		for _, b := range w.arena[:windowLead] {
+			w.foul = w.foul || b != canary
+		}
+		for _, b := range w.arena[end:near] {
+			w.foul = w.foul || b != canary
+		}
+	}
+	// the caller reuses its memory: what was returned, some bytes behind it,
+	// and now and then everything
+	fill := byte(0xA5) ^ byte(w.calls)
+	k := n + 256
+	if k > len(w.buf) || w.calls%64 == 0 {
+		k = len(w.buf)
+	}
+	for i := 0; i < k; i++ {
+		w.buf[i] = fill
+	}
+	if w.foul {
+		// the canary is gone already; the memory next to the window is the
+		// caller's too and is reused like the rest
+		for i := end; i < near; i++ {
+			w.arena[i] = fill
+		}
+	}
+}
+
+func (w *window) finalCheck() error {
+	if w.foul {
+		return ErrOutsideWindow
+	}
+	for _, b := range w.arena[windowLead+len(w.buf):] {
+		if b != canary {
+			return ErrOutsideWindow
+		}
+	}
+	return nil
 }
 
 // DecryptBytes is Decrypt over an in-memory file.
